@@ -353,6 +353,10 @@ func (fe *FE) Run() {
 		st.oldVals[k] = v
 	}
 	fe.resolveOwnFrame(st)
+	if np := fe.C.NoPanicOwn; np != nil && np.E != nil {
+		ctx.what = "nopanic own when"
+		fe.npWhen = ctx.boolTerm(ctx.eval(np.E))
+	}
 	fe.smoke(st, "requires")
 	if fe.C.MergeJoins {
 		fe.computeRPO()
@@ -948,7 +952,11 @@ func (fe *FE) safety(st *State, goal, label, what string) bool {
 		return true
 	}
 	if fe.nopanic && !fe.structuralRecover() {
-		fe.addOb(st, "safe", label, fe.tagsOf(fe.C.NoPanic), goal, what)
+		g := goal
+		if fe.npWhen != "" {
+			g = implies(fe.npWhen, goal)
+		}
+		fe.addOb(st, "safe", label, fe.tagsOf(fe.C.NoPanic), g, what)
 		st.assume(goal)
 		return true
 	}
@@ -1380,6 +1388,8 @@ func (fe *FE) makeInterface(st *State, v Val, from, to types.Type) Val {
 				t = fmt.Sprintf("((_ %s %d) %s)", ext, 64-w, v.T)
 			}
 			st.assume(eq("(ibits "+ref+")", t))
+		case v.Sort == SInt && reflectKindOf(from) >= 2 && reflectKindOf(from) <= 12:
+			st.assume(eq("(iint "+ref+")", v.T))
 		case v.Sort == SF64:
 			st.assume(eq("(ifloat "+ref+")", v.T))
 		case v.Sort == SF32:
@@ -1523,6 +1533,14 @@ func (fe *FE) execConvert(st *State, x *ssa.Convert) Val {
 			// int-mode integer conversion: value preserved only if representable
 			r := intRange(to)
 			if r != "" && intRange(from) != r {
+				if fe.C.Arith == "int unchecked" {
+					// sound without a range obligation: the result lies in the target's range and equals the operand
+					// whenever the operand is representable (otherwise it is left unconstrained)
+					c := fe.newConst(st, "conv", SInt)
+					st.assume(strings.ReplaceAll(r, "$", c))
+					st.assume(implies(strings.ReplaceAll(r, "$", v.T), eq(c, v.T)))
+					return scalar(c, ts, to)
+				}
 				fe.addOb(st, "arith-range", "convert@"+fe.curPos, nil, strings.ReplaceAll(r, "$", v.T), "integer conversion keeps the value (integers are modelled as mathematical)")
 			}
 		}
@@ -1592,11 +1610,25 @@ func (fe *FE) execConvert(st *State, x *ssa.Convert) Val {
 		}
 		return scalar(fmt.Sprintf("((_ to_fp %d %d) RNE %s)", eb, sb, v.T), ts, to)
 	case fs == SInt && isFloatSort(ts):
-		eb, sb := 11, 53
-		if ts == SF32 {
-			eb, sb = 8, 24
+		if ts == SF64 {
+			// integer -> float64 in int mode: the uninterpreted spec function n2f (sound abstraction of the IEEE conversion)
+			return scalar("(n2f "+v.T+")", ts, to)
 		}
-		return scalar(fmt.Sprintf("((_ to_fp %d %d) RNE (to_real %s))", eb, sb, v.T), ts, to)
+		return scalar(fmt.Sprintf("((_ to_fp 8 24) RNE (to_real %s))", v.T), ts, to)
+	case isFloatSort(fs) && ts == SInt:
+		// float -> integer in int mode: the uninterpreted spec function f2n, within the target's range
+		t := v.T
+		if fs == SF32 {
+			t = "((_ to_fp 11 53) RNE " + v.T + ")"
+		}
+		c := fe.newConst(st, "f2n", SInt)
+		if r := intRange(to); r != "" {
+			st.assume(strings.ReplaceAll(r, "$", c))
+			st.assume(implies(strings.ReplaceAll(r, "$", "(f2n "+t+")"), eq(c, "(f2n "+t+")")))
+		} else {
+			st.assume(eq(c, "(f2n "+t+")"))
+		}
+		return scalar(c, ts, to)
 	case fs == SStr || ts == SStr:
 		r := fe.newConst(st, "conv", ts)
 		return scalar(r, ts, to)
